@@ -270,6 +270,13 @@ Spec == Init /\ [][Next]_vars
 TypeOK == /\ Len(rows) >= 1 /\ rows[1] = t0 /\ dt # 0
           /\ status \in {"notrun", "done", "event", "failed"}
 
+(* Indefinite integration: a target beyond every tick a bounded behaviour can reach (Infinity / -Infinity below) is never attained - the *)
+(* prologue and the last-step clamp never fire for it - so a call towards it returns only because a terminal event stopped it.        *)
+Infinity == 999
+IsIndefinite(t) == t = Infinity \/ t = -Infinity
+IndefiniteRunStopsOnlyAtATerminalEvent ==
+    [][(last' = "Return" /\ ~Top.nested /\ IsIndefinite(Top.target)) => (Top.terminated /\ status' = "event")]_vars
+
 (* C03 *)
 FirstRowIsInitial == rows[1] = t0
 SegmentMonotone ==      \* rows recorded by the active call move strictly toward its target and never beyond it
